@@ -226,6 +226,7 @@ int main(int argc, char **argv)
       {"k-staged-timeStepFactor2-stages-of-4-steps", K_STAGED, 4, 2, 0, 1.0, false, {}, 0, false, 2},
       {"k-staged-timeStepFactor2-stages-of-3-steps", K_STAGED, 3, 2, 0, 1.0, false, {}, 0, false, 2},
       {"centers-staged-timeStepFactor2-stages-of-3-steps", C_STAGED, 3, 2, 0, 1.0, false, {}, 0, false, 2},
+      {"centers-staged-timeStepFactor2-stages-of-4-steps", C_STAGED, 4, 2, 0, 1.0, false, {}, 0, false, 2},
       {"k-continuous", K_CONT, 4, 0, 0, 1.0, true, {}},
       {"k-continuous-exp2", K_CONT, 5, 0, 0, 2.0, true, {}},
       {"k-staged", K_STAGED, 2, 2, 0, 1.0, false, {}},
